@@ -66,4 +66,16 @@ theorem memory_geometry_eq_model (mCost parallelism mb sl : Nat)
 example : Gen.Pwhash.memory_geometry 8 1 = (8, 2) ∧ Gen.Pwhash.memory_geometry 13 1 = (12, 3) := by decide
 example : Gen.Pwhash.convert_costs (2 ^ 32 + 3) 8191 = (3, 7) := by decide
 
+/-- the parameter ranges `Argon2Context::new` validates, as translated from `src/argon2.rs` (64-bit target), are the model's
+constants, in the order the model's `validate` applies them -/
+theorem argon2_validate_guards_eq :
+    Gen.Pwhash.argon2_validate_guards =
+      [(ARGON2_MIN_OUTLEN, ARGON2_MAX_OUTLEN, "output"), (ARGON2_MIN_PWD_LENGTH, ARGON2_MAX_PWD_LENGTH, "password"),
+       (ARGON2_MIN_SALT_LENGTH, ARGON2_MAX_SALT_LENGTH, "salt"), (ARGON2_MIN_SECRET, ARGON2_MAX_SECRET, "secret"),
+       (ARGON2_MIN_AD_LENGTH, ARGON2_MAX_AD_LENGTH, "ad"), (ARGON2_MIN_LANES, ARGON2_MAX_LANES, "parallelism"),
+       (ARGON2_MIN_MEMORY, ARGON2_MAX_MEMORY, "m_cost"), (ARGON2_MIN_TIME, ARGON2_MAX_TIME, "t_cost")] := by
+  simp [Gen.Pwhash.argon2_validate_guards, ARGON2_MIN_OUTLEN, ARGON2_MAX_OUTLEN, ARGON2_MIN_PWD_LENGTH, ARGON2_MAX_PWD_LENGTH,
+    ARGON2_MIN_SALT_LENGTH, ARGON2_MAX_SALT_LENGTH, ARGON2_MIN_SECRET, ARGON2_MAX_SECRET, ARGON2_MIN_AD_LENGTH, ARGON2_MAX_AD_LENGTH,
+    ARGON2_MIN_LANES, ARGON2_MAX_LANES, ARGON2_MIN_MEMORY, ARGON2_MAX_MEMORY, ARGON2_MIN_TIME, ARGON2_MAX_TIME]
+
 end DryocVerif.Proofs.GenPwhash
